@@ -227,12 +227,80 @@ def twin_noop(sources):
     return _unparse_all(sources, lambda path, tree: _Noop().visit(tree))
 
 
+class _RetTemp(ast.NodeTransformer):
+    """return f(x)  ->  _ret_v = f(x); return _ret_v   (functions only, not generators' bare returns)"""
+
+    def _rewrite(self, body):
+        out = []
+        for st in body:
+            if isinstance(st, ast.Return) and isinstance(st.value, (ast.Call, ast.BinOp, ast.Subscript)):
+                nm = '_ret_v%d' % getattr(st, 'lineno', 0)
+                out.append(ast.Assign(targets=[ast.Name(id=nm, ctx=ast.Store())], value=st.value, lineno=st.lineno))
+                out.append(ast.Return(value=ast.Name(id=nm, ctx=ast.Load())))
+            else:
+                out.append(st)
+        return out
+
+    def generic_visit(self, node):
+        super().generic_visit(node)
+        for f in ('body', 'orelse', 'finalbody'):
+            v = getattr(node, f, None)
+            if isinstance(v, list) and v and isinstance(v[0], ast.stmt):
+                setattr(node, f, self._rewrite(v))
+        return node
+
+
+def twin_ret_temp(sources):
+    return _unparse_all(sources, lambda path, tree: _RetTemp().visit(tree))
+
+
+def _pure_simple(e):
+    return all(isinstance(x, (ast.Name, ast.Constant, ast.Attribute, ast.Tuple, ast.List, ast.Dict, ast.Load, ast.Store,
+                              ast.expr_context)) for x in ast.walk(e))
+
+
+class _SwapAssign(ast.NodeTransformer):
+    """swap adjacent independent simple assignments  a = e1; b = e2  ->  b = e2; a = e1"""
+
+    def _rewrite(self, body):
+        out = list(body)
+        i = 0
+        while i + 1 < len(out):
+            a, b = out[i], out[i + 1]
+            if isinstance(a, ast.Assign) and isinstance(b, ast.Assign) and len(a.targets) == 1 and len(b.targets) == 1 \
+                    and isinstance(a.targets[0], ast.Name) and isinstance(b.targets[0], ast.Name) \
+                    and _pure_simple(a.value) and _pure_simple(b.value) \
+                    and not any(isinstance(x, ast.Attribute) for x in list(ast.walk(a.value)) + list(ast.walk(b.value))):
+                na = {x.id for x in ast.walk(a) if isinstance(x, ast.Name)}
+                nb = {x.id for x in ast.walk(b) if isinstance(x, ast.Name)}
+                if a.targets[0].id not in nb and b.targets[0].id not in na:
+                    out[i], out[i + 1] = b, a
+                    i += 2
+                    continue
+            i += 1
+        return out
+
+    def generic_visit(self, node):
+        super().generic_visit(node)
+        for f in ('body', 'orelse', 'finalbody'):
+            v = getattr(node, f, None)
+            if isinstance(v, list) and v and isinstance(v[0], ast.stmt) and not isinstance(node, (ast.Module, ast.ClassDef)):
+                setattr(node, f, self._rewrite(v))
+        return node
+
+
+def twin_swap(sources):
+    return _unparse_all(sources, lambda path, tree: _SwapAssign().visit(tree))
+
+
 TWINS = {
     'reprint': twin_unparse,
     'rename-locals': twin_rename,
     'raise-e': twin_raise_e,
     'messages': twin_messages,
     'noop-stmt': twin_noop,
+    'return-temp': twin_ret_temp,
+    'swap-assign': twin_swap,
 }
 
 
